@@ -26,6 +26,7 @@ import (
 	"github.com/fxamacker/cbor/v2"
 	"github.com/linxGnu/grocksdb"
 	"go.uber.org/zap"
+	"golang.org/x/crypto/sha3"
 
 	"verif/harness/sim"
 	"verif/harness/simkv"
@@ -393,6 +394,66 @@ func mutateMsg(b []byte, m Mut, others [][]byte) []byte {
 			break
 		}
 		pt.Pairs = append(append(append([]*wmpt.PersistTriePair{}, pt.Pairs[:i]...), &wmpt.PersistTriePair{Value: nb}), pt.Pairs[end:]...)
+	case "pairs.relink":
+		// A subtree of the pre-order list is replaced by a node of some kind, and the hash its parent claims for
+		// that slot is rewritten to the hash the replacement has (the empty-state hash for the nil node, the
+		// replacement's own claim otherwise): the message stays consistent with itself although no trie has
+		// that shape (nothing below a shared-prefix node, a value directly under a branch, ...).
+		pi, slot, ok := parentSlot(pt.Pairs, i)
+		if !ok {
+			break
+		}
+		var par wmpt.PersistNodeBase
+		if err := cbor.Unmarshal(pt.Pairs[pi].Value, &par); err != nil {
+			break
+		}
+		nh := make([]byte, 32)
+		for j := range nh {
+			nh[j] = byte(m.B>>uint(j%8)) ^ byte(j*37)
+		}
+		var re wmpt.PersistNodeBase
+		switch mod(m.B, 6) {
+		case 0, 1:
+			re.NilNode = &wmpt.PersistNilNode{}
+			nh = append([]byte{}, emptyStateHash...)
+		case 2:
+			re.HashNode = &wmpt.PersistHashNode{Hash: nh, Weight: uint64(mod(m.A, 9))}
+		case 3:
+			re.Value = &wmpt.PersistNodeValue{Value: []byte("x"), Hash: nh, Weight: uint64(mod(m.A, 9))}
+		case 4:
+			re.Branch = &wmpt.PersistNodeBranch{Hash: nh, Children: make([][]byte, 16)}
+		case 5:
+			re.HashNode = &wmpt.PersistHashNode{Hash: append([]byte{}, emptyStateHash...)}
+			nh = append([]byte{}, emptyStateHash...)
+		}
+		patch := func(blob []byte) []byte {
+			nb := append([]byte{}, blob...)
+			if len(nb) >= 32 {
+				copy(nb, nh)
+				if len(nb) >= 40 && mod(m.A, 3) == 0 {
+					for j := 32; j < 40; j++ {
+						nb[j] = 0
+					}
+				}
+			}
+			return nb
+		}
+		switch {
+		case par.Branch != nil && slot >= 0 && slot < len(par.Branch.Children):
+			par.Branch.Children[slot] = patch(par.Branch.Children[slot])
+		case par.Short != nil:
+			par.Short.Value = patch(par.Short.Value)
+		default:
+			ok = false
+		}
+		pb, err1 := cbor.Marshal(&par)
+		nb, err2 := cbor.Marshal(&re)
+		if !ok || err1 != nil || err2 != nil {
+			break
+		}
+		end := extent(pt.Pairs, i, 0)
+		pt.Pairs[pi] = &wmpt.PersistTriePair{Value: pb}
+		pt.Pairs = append(append(append([]*wmpt.PersistTriePair{}, pt.Pairs[:i]...), &wmpt.PersistTriePair{Value: nb}), pt.Pairs[end:]...)
 	default:
 		if pt.Pairs[i] != nil {
 			k := strings.TrimPrefix(m.K, "node.")
@@ -433,6 +494,49 @@ func claimed(p *wmpt.PersistNodeBase) ([]byte, uint64) {
 		return p.HashNode.Hash, p.HashNode.Weight
 	}
 	return nil, 0
+}
+
+// emptyStateHash: sha3-256 of nothing, the hash of an empty (sub)trie in the weighted trie's format.
+var emptyStateHash = func() []byte { h := sha3.New256(); return h.Sum(nil) }()
+
+// parentSlot finds, in a pre-order path export, the pair whose node refers to pairs[target] and the slot it does
+// so through (child index of a branch, -1 for a shared-prefix node).
+func parentSlot(pairs []*wmpt.PersistTriePair, target int) (pi, slot int, ok bool) {
+	var walk func(i, depth int) int
+	walk = func(i, depth int) int {
+		if i >= len(pairs) || depth > 80 || ok {
+			return len(pairs)
+		}
+		next := i + 1
+		if pairs[i] == nil {
+			return next
+		}
+		var p wmpt.PersistNodeBase
+		if err := cbor.Unmarshal(pairs[i].Value, &p); err != nil {
+			return next
+		}
+		switch {
+		case p.Branch != nil:
+			for c, blob := range p.Branch.Children {
+				if len(blob) > 0 {
+					if next == target {
+						pi, slot, ok = i, c, true
+					}
+					next = walk(next, depth+1)
+				}
+			}
+		case p.Short != nil:
+			if next == target {
+				pi, slot, ok = i, -1, true
+			}
+			next = walk(next, depth+1)
+		}
+		return next
+	}
+	if target > 0 {
+		walk(0, 0)
+	}
+	return
 }
 
 // extent returns the index just past the subtree that starts at pairs[i] in a pre-order path export.
@@ -919,7 +1023,7 @@ func isNodeOp(k string) bool {
 
 var byteOps = []string{"trunc", "trunc", "flip", "setbyte", "rmsep", "typebyte", "splice", "insert", "dupregion"}
 var nodeOps = []string{"kids", "childlen", "shortval", "bigweight", "nest", "nilfields"}
-var msgOps = []string{"pairs.drop", "pairs.dup", "pairs.nil", "pairs.trunc", "pairs.swap", "pairs.collapse", "pairs.collapse", "pairs.rekind", "pairs.rekind", "node.kids", "node.childlen", "node.shortval", "node.bigweight", "node.nest", "node.nilfields"}
+var msgOps = []string{"pairs.drop", "pairs.dup", "pairs.nil", "pairs.trunc", "pairs.swap", "pairs.collapse", "pairs.collapse", "pairs.rekind", "pairs.rekind", "pairs.relink", "pairs.relink", "node.kids", "node.childlen", "node.shortval", "node.bigweight", "node.nest", "node.nilfields"}
 
 // Gen generates a corruption script.
 func Gen(r *sim.Rand, tier string) sim.Script {
